@@ -222,6 +222,8 @@ type RevClient struct {
 	Slow  func(ctx context.Context, tok string) (string, error)
 	Boom  func(ctx context.Context, tok string) (string, error)
 	Event func(ctx context.Context, tok string) error `notify:"true"`
+	// Other lives on a second client-side handler, registered under its own namespace
+	Other func(ctx context.Context, tok string) (string, error) `rpc_method:"Rev2.Other"`
 }
 
 type TokAPI struct{ W *World }
@@ -302,10 +304,13 @@ func (a *TokAPI) body(ctx context.Context, tok string, plan Plan) (Result, error
 	if plan.RevAlias {
 		if rc, ok := jsonrpc.ExtractReverseClient[RevClient](ctx); ok {
 			id, err := rc.Alias(ctx, tok)
+			id2, err2 := rc.Other(ctx, tok)
 			if err != nil {
 				revs = append(revs, "!err:"+err.Error())
+			} else if err2 != nil {
+				revs = append(revs, "!err(second handler):"+err2.Error())
 			} else {
-				revs = append(revs, id)
+				revs = append(revs, id+"&"+id2)
 			}
 		} else {
 			revs = append(revs, "!absent")
@@ -598,6 +603,13 @@ func (h *RevHandler) Ident(ctx context.Context, tok string) (string, error) {
 
 func (h *RevHandler) Aliased(ctx context.Context, tok string) (string, error) {
 	return h.ID + "/alias/" + tok, nil
+}
+
+// RevHandler2 is a second, independent client-side handler (namespace Rev2).
+type RevHandler2 struct{ ID string }
+
+func (h *RevHandler2) Other(ctx context.Context, tok string) (string, error) {
+	return h.ID + "/other/" + tok, nil
 }
 
 // Event is the target of reverse notifications.
